@@ -294,6 +294,46 @@ def speccOp (kind idem pol a nh events nreq att obsInfo : String) : String :=
       else "accept"
   | _, _, _, _, _, _, _ => "bad-op"
 
+/-! ### `rt` / `att`: the built-in policies' GetRetryType / Attempt on error values and attempt counts -/
+
+def parseWriteType : String → WriteType
+  | "SIMPLE" => .simple | "BATCH" => .batch | "COUNTER" => .counter | "UNLOGGED_BATCH" => .unloggedBatch
+  | "BATCH_LOG" => .batchLog | "CAS" => .cas | "VIEW" => .view | "CDC" => .cdc | _ => .other
+
+def parseReqErr (s : String) : Option ReqErr :=
+  match s.splitOn ":" with
+  | ["un", r, a] => do pure (.unavailable (← r.toNat?) (← a.toNat?))
+  | ["wt", t, r, b] => do pure (.writeTimeout (parseWriteType t) (← r.toNat?) (← b.toNat?))
+  | ["rto", r, b, d] => do pure (.readTimeout (← r.toNat?) (← b.toNat?) (d != "0"))
+  | ["other", _] => some .other
+  | _ => none
+
+def showRT : RT → String
+  | .retry => "retry" | .rethrow => "rethrow" | .ignore => "ignore" | .nextHost => "nexthost" | .unknown => "unknown"
+
+def rtOp (pol err : String) : String :=
+  match parseReqErr err with
+  | none => "bad-op"
+  | some e =>
+    if pol == "down" then showRT (downgradingGetRetryType e)
+    else if pol == "simple" || pol == "exp" then showRT (simpleGetRetryType e)
+    else "bad-op"
+
+def attOp (pol att c0 : String) : String :=
+  match att.toNat?, c0.toNat? with
+  | some n, some c =>
+    let r : Option (Bool × Option Nat) := match pol.splitOn ":" with
+      | ["down", ls] =>
+          if ls == "-" then some (downgradingAttempt [] n)
+          else ((ls.splitOn ".").mapM String.toNat?).map fun l => downgradingAttempt l n
+      | ["simple", k] => k.toNat?.map fun k => simpleAttempt k n
+      | ["exp", k] => k.toNat?.map fun k => simpleAttempt k n
+      | _ => none
+    match r with
+    | some (ok, nc) => s!"{ok} cons={nc.getD c} sets={if nc.isSome then 1 else 0}"
+    | none => "bad-op"
+  | _, _ => "bad-op"
+
 def step (_ : Unit) (ws : List String) : Unit × String :=
   ((), match ws with
   | ["ex", kind, ctor, pol, polAt, obs, idem, sp, ctx, cons, _api, reps, hosts, outs] =>
@@ -341,6 +381,12 @@ def step (_ : Unit) (ws : List String) : Unit × String :=
       | _, _, _, _, _, _, _ => "bad-op"
   | ["specc", kind, idem, pol, a, nh, _ctx, events, nreq, att, obsInfo] =>
       speccOp kind idem pol a nh events nreq att obsInfo
+  | ["rt", pol, err] => rtOp pol err
+  | ["att", pol, att, c0] => attOp pol att c0
+  | ["kf-down-unlogged"] =>
+      -- proposed finding KF-C13-3 (theorem C13_cex_downgrading_unlogged_unacked)
+      "code=" ++ showRT (downgradingGetRetryType (.writeTimeout .unloggedBatch 0 1)) ++ " documented=" ++
+        ((Spec.downgradingDoc (.writeTimeout .unloggedBatch 0 1)).map showRT).getD "-"
   | ["kf-batch-loser"] =>
       -- proposed finding KF-C13-2 (theorem C13_cex_batch_loser_not_cancelled): the executor's cancellation does not
       -- reach a batch's attempts
